@@ -176,6 +176,34 @@ def auto_discharge(db, body, tm, site):
     return None
 
 
+def _parent_fn(fn):
+    return fn.split("::{closure")[0]
+
+
+def _file_of_key(db, fn):
+    """Source file of the function a (possibly stale) site key names: the function itself, or the nearest enclosing path that
+    still exists in the crate."""
+    cache = getattr(db, "_key_file_cache", None)
+    if cache is None:
+        cache = db._key_file_cache = {}
+    if fn in cache:
+        return cache[fn]
+    out = None
+    try:
+        out = db.mir.file_of(fn)
+    except KeyError:
+        segs = fn.split("::")
+        keys = list(db.mir.keys())
+        for n in range(len(segs) - 1, 0, -1):
+            pre = "::".join(segs[:n]) + "::"
+            hit = next((k for k in keys if k.startswith(pre)), None)
+            if hit is not None:
+                out = db.mir.file_of(hit)
+                break
+    cache[fn] = out
+    return out
+
+
 def reach_rule(db, rep, r, entries, scope_prefixes=None, allow=None, site_allow=None, stop=(), floor=None,
                graph=None, extra_discharge=None):
     """Every panic site in local functions reachable from `entries` must be discharged.
@@ -183,6 +211,22 @@ def reach_rule(db, rep, r, entries, scope_prefixes=None, allow=None, site_allow=
     site_allow: {site key: reason}."""
     allow = allow or {}
     site_allow = site_allow or {}
+    # A reviewed site stands for its *class*: (source file, kind@producer).  The same kind of site on a value from the same
+    # producer, anywhere in that file, is covered by the same reason - so extracting a helper, renaming a function or turning a
+    # closure into a loop does not invalidate the review, while a new kind of site or a new producer in the file is reported.
+    # Sites without a producer (index / bounds / explicit panic) are matched per enclosing function, ignoring closure nesting and
+    # ordinals, and only while the function has no more sites of that kind than were reviewed.
+    class_allow, fn_allow = {}, {}
+    for k, why in site_allow.items():
+        parts = k.split("|")
+        if len(parts) < 2:
+            continue
+        if parts[1].startswith("unwrap@"):
+            f0 = _file_of_key(db, parts[0])
+            if f0 is not None:
+                class_allow.setdefault((f0, parts[1]), why)
+        else:
+            fn_allow.setdefault((_parent_fn(parts[0]), parts[1]), []).append(why)
     g = graph or call_graph(db)
     missing = [e for e in entries if e not in db.mir]
     rep.anchor(not missing, "entry points %s" % missing)
@@ -190,6 +234,19 @@ def reach_rule(db, rep, r, entries, scope_prefixes=None, allow=None, site_allow=
     _tcache = {}
     nsites = 0
     used_allow = set()
+    site_counts = {}
+    for fn in reach:
+        if scope_prefixes and not fn.startswith(tuple(scope_prefixes)) and not any(p in fn for p in scope_prefixes):
+            continue
+        tm_ = terms_of(db, fn, _tcache)
+        for s in sites_of(db, fn, tm=tm_):
+            # only sites that need a review count (constant indices into fixed arrays etc. discharge themselves)
+            if auto_discharge(db, db.mir[fn], tm_, s) is not None:
+                continue
+            if extra_discharge is not None and s["key"] not in site_allow and extra_discharge(db, db.mir[fn], tm_, s) is not None:
+                continue
+            fk = (_parent_fn(fn), s["key"].split("|")[1])
+            site_counts[fk] = site_counts.get(fk, 0) + 1
     for fn in sorted(reach):
         if scope_prefixes and not fn.startswith(tuple(scope_prefixes)) and not any(p in fn for p in scope_prefixes):
             continue
@@ -207,6 +264,16 @@ def reach_rule(db, rep, r, entries, scope_prefixes=None, allow=None, site_allow=
             if reason is None and s["key"] in site_allow:
                 reason = site_allow[s["key"]]
                 used_allow.add(s["key"])
+            if reason is None:
+                stub = s["key"].split("|")[1]
+                ck = (db.mir.file_of(fn), stub)
+                fk = (_parent_fn(fn), stub)
+                if stub.startswith("unwrap@") and ck in class_allow:
+                    reason = "same class as a reviewed site (%s in %s): %s" % (ck[1], ck[0], class_allow[ck])
+                    used_allow.add("class:%s|%s" % ck)
+                elif fk in fn_allow and site_counts.get(fk, 0) <= len(fn_allow[fk]):
+                    reason = "reviewed site of %s (%s): %s" % (fk[0].split("::")[-1], stub, fn_allow[fk][0])
+                    used_allow.add("fn:%s|%s" % fk)
             if reason is None and s["kind"] == "unwrap" and s["oterm"] is not None:
                 k = "unwrap@%s" % s["origin"]
                 if k in allow:
